@@ -52,7 +52,9 @@ def rand_request(rng, allow_stall=False, allow_bad=True, close_p=0.15):
     if allow_bad and x < 0.06:
         b = rng.choice([b"GET/HTTP/1.1\r\n\r\n", b"GET /c\r\n\r\n", b"\r\n\r\n", b"GARBAGE\r\n\r\n",
                         b"GET /c HTTP/1.1\r\nbadline\r\n\r\n", b"GET /h HTTP/1.1\r\nno colon here\r\nHost: x\r\n\r\n",
-                        b"GET /c HTTP/1.1\r\nRange: bytes=x-y\r\n\r\n", b"GET /c HTTP/1.1\r\nrange: bytes=7-\r\n\r\n"])
+                        b"GET /c HTTP/1.1\r\nRange: bytes=x-y\r\n\r\n", b"GET /c HTTP/1.1\r\nrange: bytes=7-\r\n\r\n",
+                        b"GET /c HTTP/1.1\r\nRange: bytes=9-3\r\n\r\n", b"GET /big HTTP/1.1\r\nRange: bytes=0-9223372036854775807\r\n\r\n",
+                        b"GET /c HTTP/1.1\r\nRange: bytes=5--9223372036854775808\r\n\r\n"])
         return b, "bad"
     if allow_stall and x < 0.12:
         return req("/s", headers=hdrs), "stall"
@@ -113,7 +115,7 @@ class Sc:
         P = self.P
         P.do("top", "w0.new %s port=%d keepalive=%d" % (self.srv[0], self.port, self.keep))
         P.do("top", "w0.content /c size=%d" % rng.choice([0, 1, 46, 300, 300, 700]))
-        P.do("top", "w0.content /big size=%d" % rng.choice([1475, 3000, 6000, 20000]))
+        P.do("top", "w0.content /big size=%d" % rng.choice([1475, 3000, 6000, 12000]))
         P.do("top", "w0.redirect /r %s" % rng.choice(["/c", "http://10.0.1.1:8080/big", "/"]))
         P.do("top", "w0.stall /s")
         P.do("top", "w0.handler /h body=%s" % hx(bytes(rng.randrange(256) for _ in range(rng.choice([0, 1, 5, 40, 200])))))
@@ -254,21 +256,21 @@ def generate(seed, tier, n=None):
     rng = random.Random(seed * 7368787 + 16)
     out = []
     quick = tier == "quick"
-    # exhaustive single cuts of short pipelines
-    pipes = SHORT if not quick else [SHORT[(seed + i) % len(SHORT)] for i in range(2)]
-    for pi, (stream, keep) in enumerate(pipes):
+    # exhaustive single cuts of short pipelines (every position, alternately back to back / spaced)
+    for pi, (stream, keep) in enumerate(SHORT):
         cseed = rng.randrange(1 << 30)
-        step = 1 if not quick else 1
-        for c in range(0, len(stream), step):
+        for c in range(0, len(stream)):
             out.append(sc_cut(rng, "x%d_%d" % (pi, c), stream, [c] if c else [], keep, cseed, spaced=(c % 2 == 1)))
-    # exhaustive pairs of cuts inside a window around the request boundary
-    s2, k2 = SHORT[seed % len(SHORT)]
-    cseed = rng.randrange(1 << 30)
-    w0 = max(1, len(req("/h")) - (4 if quick else 12)); w1 = min(len(s2) - 1, w0 + (8 if quick else 24))
-    for a in range(w0, w1):
-        for b in range(a + 1, w1 + 1):
-            out.append(sc_cut(rng, "y%d_%d" % (a, b), s2, [a, b], k2, cseed, second=False, spaced=((a + b) % 3 == 0)))
-    nr = n or (260 if quick else 9000)
+    # exhaustive pairs of cuts inside a window around the first request boundary
+    for k in range(1 if quick else len(SHORT)):
+        s2, k2 = SHORT[(seed + k) % len(SHORT)]
+        cseed = rng.randrange(1 << 30)
+        b0 = s2.find(b"\r\n\r\n") + 4
+        w0 = max(1, b0 - (8 if quick else 14)); w1 = min(len(s2) - 1, b0 + (8 if quick else 14))
+        for a in range(w0, w1):
+            for b in range(a + 1, w1 + 1):
+                out.append(sc_cut(rng, "y%d_%d_%d" % (k, a, b), s2, [a, b], k2, cseed, second=False, spaced=((a + b) % 3 == 0)))
+    nr = n or (8000 if quick else 60000)
     for i in range(nr):
         x = rng.random()
         if x < 0.6: out.append(sc_rand(rng, "r%d" % i))
